@@ -63,27 +63,55 @@ func c05Configs(thorough bool) []modelCfg {
 						nms = [][2]int{{1, 1}, {1, 2}, {2, 1}, {2, 2}}
 						bs = []bool{false, true}
 					}
+					// the same failing subsets once more with a real fault (an ill-typed store into an
+					// injected field, which panics inside reflect) instead of the panicking observer
+					variants := [][]ruleCfg{rules}
+					if n == 3 && pat == "desc" {
+						var real []ruleCfg
+						any := false
+						for _, r := range rules {
+							if r.Fail {
+								r.Fail, r.Fault = false, `cnt.C6 = "x"`
+								any = true
+							}
+							real = append(real, r)
+						}
+						if any {
+							variants = append(variants, real)
+							// ... and by the expression of their top-level return
+							var ret []ruleCfg
+							for _, r := range real {
+								if r.Fault != "" {
+									r.Fault = "return nosuch(1)"
+								}
+								ret = append(ret, r)
+							}
+							variants = append(variants, ret)
+						}
+					}
 					for _, nm := range nms {
 						for _, b := range bs {
-							cfg := modelCfg{Prop: "C05", Rules: rules, Model: m.name, B: b, N: nm[0], M: nm[1]}
-							if m.sel {
-								k := n
-								if m.nm {
-									// selected N-M needs exactly N+M names; also probe one name too many / too few
-									k = nm[0] + nm[1]
-									if k > n {
-										k = n
+							for _, rules := range variants {
+								cfg := modelCfg{Prop: "C05", Rules: rules, Model: m.name, B: b, N: nm[0], M: nm[1]}
+								if m.sel {
+									k := n
+									if m.nm {
+										// selected N-M needs exactly N+M names; also probe one name too many / too few
+										k = nm[0] + nm[1]
+										if k > n {
+											k = n
+										}
+									}
+									// names in rotated order so that the given order differs from the salience order
+									for i := 0; i < k; i++ {
+										cfg.Names = append(cfg.Names, ruleNames[(i+1)%k])
+									}
+									if pat == "pairs" && m.nm {
+										continue // ties straddling the selected window boundary are left open by the statement
 									}
 								}
-								// names in rotated order so that the given order differs from the salience order
-								for i := 0; i < k; i++ {
-									cfg.Names = append(cfg.Names, ruleNames[(i+1)%k])
-								}
-								if pat == "pairs" && m.nm {
-									continue // ties straddling the selected window boundary are left open by the statement
-								}
+								out = append(out, cfg)
 							}
-							out = append(out, cfg)
 						}
 					}
 				}
@@ -110,7 +138,11 @@ func runModelConfigs(c *hx.Ctx, prop string, cfgs []modelCfg, bound int) {
 			c.Res.Capped = append(c.Res.Capped, "time budget before all configurations")
 			break
 		}
-		hx.Explore(prop, modelScenario(cfg), hx.ExploreCfg{Bound: bound, Prune: true, Deadline: c.Deadline}, c.Res)
+		b := bound
+		if cfg.Sched > 0 {
+			b = cfg.Sched
+		}
+		hx.Explore(prop, modelScenario(cfg), hx.ExploreCfg{Bound: b, Prune: true, Deadline: c.Deadline}, c.Res)
 	}
 }
 
@@ -121,7 +153,7 @@ func init() {
 		BudgetQuick: 150 * time.Second,
 		BudgetThor:  25 * time.Minute,
 		Kind:        "schedules",
-		Rule: "models {mix, inverse-mix, N-sort-M-conc, N-conc-M-sort, N-conc-M-conc and their selected twins} x 1..4(5) rules x salience patterns {descending, ascending incl. negative, tied pairs, (all tied)} x failing subsets of size <=1(2) x (N,M) in {1,2}^2 x both policy values; " +
+		Rule: "models {mix, inverse-mix, N-sort-M-conc, N-conc-M-sort, N-conc-M-conc and their selected twins} x 1..4(5) rules x salience patterns {descending, ascending incl. negative, tied pairs, (all tied)} x failing subsets of size <=1(2) (for 3 rules also failing by a real fault - an ill-typed store into an injected field, a failing top-level return expression - instead of the panicking observer) x (N,M) in {1,2}^2 x both policy values; " +
 			"every schedule up to the preemption bound (quick 2, thorough 3) on the real engine; oracle = staged reference plan (barrier, exactly-once, sorted order, stop policy, error iff failure), any order among equal saliences accepted",
 		Assume: []string{"injected observer functions terminate", "sequentially consistent memory (races are C19's subject)"},
 		Run: func(c *hx.Ctx) {
